@@ -1,6 +1,9 @@
 import Woodpile.Driver.Util
 import Woodpile.Driver.IterScript
 import Woodpile.Model.SortedDeque
+import Woodpile.Model.DequeTraits
+import Woodpile.Driver.Unwind
+import Woodpile.Driver.SlidingDeque
 
 /-!
 Model driver for family `sorted` (C16).  Items are `key:value` with `value = -` for an
@@ -22,6 +25,12 @@ all evaluated on the state after the op.
 `conv pair digest` / `conv whole digest` (large deques): the line is reduced to the return
 value, `first()`, `last()`, `is_empty()`, and `iter` returns `#<count>:<FNV-1a 64 of the item
 list as text>` (see harness/src/fam_sorted.rs).
+
+Standard traits over several object instances (track traits; `Model/DequeTraits.lean`, theorems
+`Props/C16T.lean`): `dnew | ddefault | dstore k | dload k | dswap k | dclone_from k | dclone_into k |
+dtake k | ddebug` run `DequeTraits.mstep` with `sortedTraits` and answer the usual line of the object
+written (`nohandle` for a missing handle).  `unwinding <op>` (`Driver/Unwind.lean`) is accepted for
+ops that do not panic on the current state (never for `at` / `new` / `conv`).
 -/
 namespace Woodpile.Driver.SortedDequeFam
 open Woodpile.Driver Woodpile.SortedDeque
@@ -142,6 +151,28 @@ structure St where
   digest : Bool := false
   cur : Option (SortedDeque Item)
   snaps : List (SortedDeque Item)
+  /-- further object instances `d0, d1, …` (handle ops) -/
+  objs : List (SortedDeque Item) := []
+
+/-- the handle ops; `none` = not one of them -/
+def stepTraits (cv : Conv) (st : St) (ws : List String) : Option (St × List String) :=
+  match SlidingDequeFam.parseMOp ws with
+  | none => none
+  | some mop =>
+    match st.cur with
+    | none => some (st, ["dead"])
+    | some s =>
+      let show1 (st' : St) (shown : SortedDeque Item) : St × List String :=
+        match observe cv st.digest "()" shown with
+        | none => ({ st with cur := none }, ["panic"])
+        | some line => (st', [line])
+      match mop with
+      | none => some (show1 st s)      -- `ddebug`: reads only
+      | some op =>
+        match Woodpile.DequeTraits.mstep (Woodpile.DequeTraits.sortedTraits Item) ⟨s, st.objs⟩ op with
+        | .nohandle => some (st, ["nohandle"])
+        | .panic => some ({ st with cur := none }, ["panic"])
+        | .ok shown m' => some (show1 { st with cur := some m'.cur, objs := m'.objs } shown)
 
 def initSt (whole : Bool) (digest : Bool := false) : St :=
   { whole := whole, digest := digest, cur := some SortedDeque.empty, snaps := [SortedDeque.empty] }
@@ -171,6 +202,9 @@ def stepWith (cv : Conv) (st : St) (ws : List String) : St × List String :=
       | some _, none => ({ st with cur := none }, ["panic"])
       | some steps, some l => (st, [IterScriptText.scriptObs (l.map fmtItem) steps false])
   | _ =>
+    match stepTraits cv st ws with
+    | some r => r
+    | none =>
     match st.cur with
     | none => (st, ["dead"])
     | some s =>
@@ -192,6 +226,16 @@ def stepLine (st : St) (ws : List String) : St × List String :=
   | ["conv", "whole", "digest"] => (initSt true true, ["conv whole digest"])
   | _ => if st.whole then stepWith wholeConv st ws else stepWith pairConv st ws
 
-def family : Family := { σ := St, init := initSt false, step := stepLine }
+/-- may `unwinding <ws>` run?  (harness: `Runner::unwind_safe`): never `at` / `new` / `conv` / `iterscript`, and
+only when the op does not panic on the current state (decided on the op's own answer, evaluated once) -/
+def unwindPre (st : St) (ws : List String) : Bool :=
+  match ws with
+  | "at" :: _ => false
+  | "new" :: _ => false
+  | "conv" :: _ => false
+  | "iterscript" :: _ => false
+  | _ => st.cur.isSome
+
+def family : Family := withUnwindOut { σ := St, init := initSt false, step := stepLine } unwindPre panicOrBad
 
 end Woodpile.Driver.SortedDequeFam
